@@ -61,8 +61,8 @@ func c13body(cfg c13cfg) func() {
 			switch cfg.attempt[i] {
 			case "transient":
 				dialPlan = append(dialPlan, "transient", "ok")
-			case "permanent":
-				dialPlan = append(dialPlan, "permanent")
+			case "permanent", "permanent-text", "permanent-expired-text", "permanent-disabled":
+				dialPlan = append(dialPlan, cfg.attempt[i])
 			default:
 				dialPlan = append(dialPlan, "ok")
 			}
@@ -94,8 +94,8 @@ func c13body(cfg c13cfg) func() {
 					if plan == "transient" && step == "header3" {
 						return "close"
 					}
-					if plan == "permanent" && step == "auth" {
-						return "failure"
+					if strings.HasPrefix(plan, "permanent") && step == "auth" {
+						return "failure" + strings.TrimPrefix(plan, "permanent")
 					}
 					return alts[0]
 				}}
@@ -256,7 +256,7 @@ func c13body(cfg c13cfg) func() {
 				}
 				break
 			}
-			if cfg.attempt[li] == "permanent" {
+			if strings.HasPrefix(cfg.attempt[li], "permanent") {
 				// exactly the refused dials plus the rejected attempt, then silence
 				if want := cfg.refused[li] + 1; dials-nDial != want {
 					vrt.Fail("C13|permanent-error-dials|"+clause, "%s: after the loss %d connection attempts were made within 30 min, want %d (the last one rejected for good)", desc, dials-nDial, want)
@@ -313,7 +313,7 @@ func c13body(cfg c13cfg) func() {
 		if cfg.stop {
 			permanent := false
 			for _, a := range cfg.attempt {
-				permanent = permanent || a == "permanent"
+				permanent = permanent || strings.HasPrefix(a, "permanent")
 			}
 			if runReturned && !permanent {
 				// Run is documented to wait until the manager is stopped (or gives up on an unrecoverable error)
@@ -369,6 +369,21 @@ func TestVerifC13(t *testing.T) {
 				}
 			}
 		}
+		// the other shapes of a rejection of the credentials
+		for _, at := range []string{"permanent-text", "permanent-expired-text", "permanent-disabled"} {
+			add(c13cfg{sm: sm, faults: []string{"drop"}, refused: []int{0}, attempt: []string{at}, stop: true})
+			add(c13cfg{sm: sm, faults: []string{"graceful-close"}, refused: []int{1}, attempt: []string{at}, stop: true})
+		}
+		// a long life: twenty losses in a row, each followed by a new session (whatever counts sessions, requests or
+		// attempts crosses 9, 15 and 16 on the way)
+		long := c13cfg{sm: sm, stop: true}
+		mixed := c13cfg{sm: sm, stop: true}
+		for i := 0; i < 20; i++ {
+			long.faults, long.refused, long.attempt = append(long.faults, "drop"), append(long.refused, 0), append(long.attempt, "ok")
+			mixed.faults, mixed.refused, mixed.attempt = append(mixed.faults, faults[i%5]), append(mixed.refused, i%2), append(mixed.attempt, "ok")
+		}
+		add(long)
+		add(mixed)
 		add(c13cfg{sm: sm, stop: true})
 		add(c13cfg{sm: sm, stopWhileRefused: true})
 		add(c13cfg{sm: sm, faults: []string{"drop"}, refused: []int{1}, attempt: []string{"ok"}, stopWhileRefused: true})
